@@ -11,6 +11,7 @@
 package runtime
 
 import (
+	"fmt"
 	"reflect"
 	"runtime"
 	"strings"
@@ -2016,3 +2017,24 @@ func specIndirectReg(vm *VM, r int8) bool     { return r > -128 && r <= 0 && int
 //@   opt puremethods IsNil Elem Kind Int Uint Bool Float String Interface
 //@   requires vm != nil && specRegsOK(vm, vm.fn)
 //@   requires r >= 0 && int(r) <= int(vm.fn.NumReg[3])
+
+// ---------------------------------------------------------------------------
+// C09, JavaScript and JSON contexts: the only "cannot show" failure of showInJS
+// and showInJSON is the conversion of a map key. The key goes to toString (kinds
+// Bool..Complex128 and String, contract above) only after fmt.Stringer and
+// native.EnvStringer have been tried - the static table (checkShowJS and
+// checkShowJSON in the compiler) accepts exactly these key types.
+// ---------------------------------------------------------------------------
+
+func specIsStringer(x any) bool    { _, ok := x.(fmt.Stringer); return ok }
+func specIsEnvStringer(x any) bool { _, ok := x.(native.EnvStringer); return ok }
+
+//@ clause showInJS/case Map
+//@   props X00 C09
+//@   panics allowed
+//@   callassert[C09] toString 0 !specIsStringer(k) && !specIsEnvStringer(k)
+
+//@ clause showInJSON/case Map
+//@   props X00 C09
+//@   panics allowed
+//@   callassert[C09] toString 0 !specIsStringer(k) && !specIsEnvStringer(k)
